@@ -237,8 +237,9 @@ def gateH : Handler := fun inp impl => do
   return ({ model := m, agree := m == implCore, spec := spec,
             nontrivial := !rules.isEmpty || getStrD inp "scheme" != "", tag := tag } : Verdict).toJson
 
-/-- c12.grpc — the gRPC proxy path. No credentials are sent and no scheme is registered, so a route naming a
-scheme must reject; the peer is the client's socket address. -/
+/-- c12.grpc — the gRPC proxy path: lookup, access check on the peer of the call, handler. The path has no
+authentication step (the model follows the code; the specification does not: a route naming a scheme must not
+be served without credentials — recorded finding `grpc-unauthorized`). The peer is the client's socket address. -/
 def grpcH : Handler := fun inp impl => do
   let allow := getStrD inp "allow"
   let deny := getStrD inp "deny"
@@ -248,13 +249,21 @@ def grpcH : Handler := fun inp impl => do
   let (rules, _) := processAccessRules goParsers allow.toList deny.toList
   let ip := (splitHostPort peer.toList).bind (fun h => parseIP (stripZone h))
   let denied := accessDeniedTCP rules (.addr ip)
-  let authOk := authorized scheme.toList ([] : List (List Char × Unit)) (fun _ => true)
-  let (_, contacted) := runGate { found := true, denied := denied, authorized := authOk } [.lookup, .access, .auth, .upstream] false
-  let m := Json.mkObj [("forwarded", contacted)]
+  let (reply, contacted) := runGate { found := true, denied := denied, authorized := true } [.lookup, .access, .upstream] false
+  let code : String := match reply with
+    | .forbidden => "PermissionDenied"
+    | .noRoute => "NotFound"
+    | .unauthorized => "Unauthenticated"
+    | .served => "OK"
+  let m := Json.mkObj [("forwarded", contacted), ("code", code)]
+  let implCore := Json.mkObj [("forwarded", decide (hits > 0)), ("code", getStrD impl "code")]
   let ref := (impl.getObjVal? "ref").toOption.getD Json.null
-  let spec := hits == 0 || (specDecision ref none (some false) && scheme == "")
-  let tag := if denied then "grpc-denied-by-rules" else if !authOk then "grpc-unauthorized" else "grpc-admitted"
-  return ({ model := m, agree := contacted == (hits > 0), spec := spec,
+  -- spec: the upstream is touched only for a peer the reference admits and a route without auth=;
+  -- a refusal leaves it untouched
+  let spec := (hits == 0 || (specDecision ref none (some false) && scheme == ""))
+    && (getStrD impl "code" == "OK" || hits == 0)
+  let tag := if denied then "grpc-denied-by-rules" else if scheme != "" then "grpc-unauthorized" else "grpc-admitted"
+  return ({ model := m, agree := m == implCore, spec := spec,
             nontrivial := !rules.isEmpty || scheme != "", tag := tag } : Verdict).toJson
 
 def streams : List (String × Handler) :=
